@@ -413,6 +413,7 @@ func (c C16) Run(t *tape.Tape, opt core.RunOpt) (res core.Result) {
 			}
 		}
 	}
+	explicitExt := map[string]bool{} // types the definition set itself extends
 	// an input type gains a defaulted field through an extension that is part of
 	// the definition set (a split may deliver it in a later load than the
 	// directives and fields that use the input type)
@@ -423,15 +424,32 @@ func (c C16) Run(t *tape.Tape, opt core.RunOpt) (res core.Result) {
 				ins = append(ins, f)
 			}
 		}
-		if len(ins) > 0 && t.Bool(1, 3) {
+		hasLit := false
+		for _, f := range ins {
+			if litInputs[f.name] {
+				hasLit = true
+			}
+		}
+		if len(ins) > 0 && (t.Bool(1, 3) || (hasLit && t.Bool(1, 2))) {
 			in := ins[t.Draw(len(ins))]
 			for _, f := range ins {
 				if litInputs[f.name] && t.Bool(2, 3) {
 					in = f
 				}
 			}
+			explicitExt[in.name] = true
 			frags = append(frags, &c16Frag{name: "<extend input " + in.name + ">", refs: []string{in.name},
 				text: fmt.Sprintf("extend input %s {\n  zzd%d: Int = %d\n}\n", in.name, t.Draw(9), 1+t.Draw(9))})
+			// and a query field that takes the input type, so that the request set
+			// shows what a resolver receives for it
+			for _, f := range frags {
+				if f.name == "Query" && t.Bool(2, 3) {
+					explicitExt["Query"] = true
+					frags = append(frags, &c16Frag{name: "<extend type Query: field taking " + in.name + ">", refs: []string{"Query", in.name},
+						text: fmt.Sprintf("extend type Query {\n  zzq%d(a: %s): String\n}\n", t.Draw(9), in.name)})
+					break
+				}
+			}
 		}
 	}
 	defOf := map[string]int{}
@@ -481,7 +499,7 @@ func (c C16) Run(t *tape.Tape, opt core.RunOpt) (res core.Result) {
 			var queues [][]string
 			for i, f := range frags {
 				if f.spec != nil && t.Bool(2, 3) {
-					if _, explicit := defOf["<extend input "+f.name+">"]; explicit {
+					if explicitExt[f.name] {
 						// the set itself extends this type: where that block stands
 						// relative to generated ones would decide the member order
 						continue
